@@ -371,7 +371,14 @@ class Heap:
                 else:
                     ip.prims["dynamic_roots::Slots::add"] = old
         if path == "write":
-            return self.run(g, "context::Mutation::backward_barrier", [cx, gc(h), none()], st)
+            # the public entry point itself: Gc::write(mc, gc) issues the barrier and hands out the &Write
+            ip = self.m.ip
+            old_l = ip.lenient_std
+            ip.lenient_std = True
+            try:
+                return self.run(g, "gc::Gc::write", [cx, gc(h)], st)
+            finally:
+                ip.lenient_std = old_l
         if path == "bwd_child":
             if k == "s":
                 return self.run(g, "context::Mutation::backward_barrier", [cx, gc(h), some(gc(c))], st)
